@@ -96,6 +96,7 @@ type Op struct {
 	Others    []uuid.UUID
 	Fuzz      []FuzzV
 	Chosen    []uuid.UUID
+	Failed    bool
 }
 
 type Pulled struct {
@@ -778,6 +779,7 @@ func fillOracles(op *Op, resp *Resp, pre, post *Dump, lo int64) {
 		}
 		op.FreshDels = newDels(pre, post)
 	case "Job":
+		op.Failed = !ok
 		switch op.Job {
 		case "PruneCompletedDeliveries", "PruneExpiredDeliveries", "PruneDeletedSubDeliveries":
 			for _, x := range pre.Dels {
